@@ -112,12 +112,13 @@ def runConcat (events : List (Bool × Int × List CRow)) : List (List Int) :=
 
 inductive Err
   | dupStrat | dupCat | emptyCats | unknownExcl | badBins | dupObs | missingStrat | unknownCat | missingCallable
+  | raised      -- a user callable (pipeline source, mapper, filter evaluation, `to_observe`, aggregator, updater) raised
 deriving Repr, DecidableEq
 
 def Err.name : Err → String
   | .dupStrat => "dupStrat" | .dupCat => "dupCat" | .emptyCats => "emptyCats" | .unknownExcl => "unknownExcl"
   | .badBins => "badBins" | .dupObs => "dupObs" | .missingStrat => "missingStrat" | .unknownCat => "unknownCat"
-  | .missingCallable => "missingCallable"
+  | .missingCallable => "missingCallable" | .raised => "raised"
 
 /-- a registered `Stratification` -/
 structure Strat where
@@ -170,11 +171,15 @@ def resolve (defaults additional excluded : List String) : List String :=
 inductive Kind | adding | concat
 deriving Repr, DecidableEq
 
+/-- the default `pop_filter` of the four `register_*_observation` methods of the interface -/
+def defaultFilter : String := "tracked==True"
+
 structure Obs where
   name   : String
   phase  : String
   kind   : Kind
   strats : List String           -- resolved stratification names (adding observations)
+  filter : String := defaultFilter   -- `pop_filter`, byte for byte (only its identity matters: it is half of the group key)
 deriving Repr, DecidableEq
 
 structure Ctx where
@@ -192,14 +197,14 @@ stratifications.  `callablesOk = false`: a required callable (`results_updater` 
 `register_unstratified_observation`) was left at its placeholder – refused by
 `ResultsInterface._check_for_required_callables` before anything else is looked at. -/
 def registerObservation (c : Ctx) (name phase : String) (kind : Kind) (additional excluded : List String)
-    (callablesOk : Bool := true) : Except Err Ctx :=
+    (callablesOk : Bool := true) (filter : String := defaultFilter) : Except Err Ctx :=
   if !callablesOk then .error .missingCallable
   else if c.obs.any (fun o => o.name = name) then .error .dupObs
   else
     let strats := match kind with
       | .adding => resolve c.defaults additional excluded
       | .concat => []
-    .ok { c with obs := c.obs ++ [{ name := name, phase := phase, kind := kind, strats := strats }] }
+    .ok { c with obs := c.obs ++ [{ name := name, phase := phase, kind := kind, strats := strats, filter := filter }] }
 
 def findStrat (strats : List Strat) (n : String) : Option Strat := strats.find? (fun s => s.name = n)
 
@@ -254,6 +259,13 @@ def stratifyAll (strats : List Strat) : List RawRow → Except Err (List (List (
     let rest ← stratifyAll strats rs
     pure (m :: rest)
 
+/-- which user callable of an observation raises when it is called at this event (lesson 16: callables that fail
+on purpose).  `filter`: the evaluation of `pop_filter` (`population.query` in `_filter_population`, reached for every
+group of the phase); `toObserve`: `to_observe(event)` (called only when the group's filtered population is not
+empty); `gather`: the aggregator / `results_gatherer` / `results_updater` (called only when `to_observe` said yes). -/
+inductive Fault | none | filter | toObserve | gather
+deriving Repr, DecidableEq
+
 /-- what the harness supplies per observation and event: the user callables' outputs -/
 structure ObsInput where
   name      : String
@@ -261,6 +273,7 @@ structure ObsInput where
   passes    : List Bool
   vals      : List Int           -- adding: aggregator summand per row
   payloads  : List (List Int)    -- concatenating: included columns per row
+  fault     : Fault := .none     -- a callable of this observation that raises at this event
 deriving Repr
 
 def catsFor (names : List String) (mapped : List (String × Option String)) : List (Option String) :=
@@ -303,15 +316,34 @@ def stepObs (time : Int) (rows : List RawRow) (mapped : List (List (String × Op
   | some i => observeOne c time rows mapped o i
   | none => c
 
+/-- key of the dict `ResultsContext.observations[phase]`: `(pop_filter, stratifications)`; the stratifications of
+an unstratified (concatenating) observation are `None` -/
+def Obs.groupKey (o : Obs) : String × Option (List String) :=
+  (o.filter, match o.kind with | .adding => some o.strats | .concat => none)
+
+/-- `self.observations[when][(pop_filter, stratifications)].append(observation)`: appended to its group when the key
+is known, a new group at the end otherwise (dicts keep insertion order) -/
+def insertGroup (o : Obs) : List ((String × Option (List String)) × List Obs) → List ((String × Option (List String)) × List Obs)
+  | [] => [(o.groupKey, [o])]
+  | (k, os) :: gs => if k = o.groupKey then (k, os ++ [o]) :: gs else (k, os) :: insertGroup o gs
+
+/-- the dict of one phase after registering `os` in this order -/
+def groups (os : List Obs) : List ((String × Option (List String)) × List Obs) :=
+  os.foldl (fun g o => insertGroup o g) []
+
+/-- the order in which `ResultsContext.gather_results` reaches the observations of a phase: group by group in the
+order of first registration, registration order inside a group -/
+def traversal (os : List Obs) : List Obs := (groups os).flatMap (·.2)
+
 /-- `ResultsManager.gather_results(lifecycle_phase, event)`: empty population ⇒ nothing; stratify (may
-fail); then every observation registered for the phase.  `inputs` must hold one entry per observation of
-the phase (the driver checks). -/
+fail); then every observation registered for the phase, in the order of `traversal`.  `inputs` must hold one
+entry per observation of the phase (the driver checks). -/
 def gatherEvent (c : Ctx) (phase : String) (time : Int) (rows : List RawRow) (inputs : List ObsInput) :
     Except Err Ctx :=
   if (rows.filter (·.inEvent)).isEmpty then .ok c
   else do
     let mapped ← stratifyAll c.strats rows
-    pure <| (c.obs.filter (fun o => o.phase = phase)).foldl (stepObs time rows mapped inputs) c
+    pure <| (traversal (c.obs.filter (fun o => o.phase = phase))).foldl (stepObs time rows mapped inputs) c
 
 /-- a whole simulation: events in order; the first error stops it -/
 def runSim (c : Ctx) : List (String × Int × List RawRow × List ObsInput) → Except Err Ctx
@@ -319,5 +351,60 @@ def runSim (c : Ctx) : List (String × Int × List RawRow × List ObsInput) → 
   | (ph, t, rows, inputs) :: es => do
     let c' ← gatherEvent c ph t rows inputs
     runSim c' es
+
+/-! ### Failing gatherings (a user callable raises; the caller catches the exception and carries on)
+
+`ResultsContext.gather_results` is a generator and `ResultsManager.gather_results` applies every yielded result at
+once (`self._raw_results[measure] = updater(...)`): what was gathered before the failing callable stays recorded,
+nothing is rolled back, nothing is remembered about the failure.  A caller that catches the exception (an
+`InteractiveContext` user around `step()`) can go on: the life cycle lets a step that failed in `collect_metrics`
+be run again, which emits all four phases again for the same clock time – each emission is an event of its own. -/
+
+/-- failures of the event as a whole, before any observation is reached -/
+structure EventFault where
+  prepare : Bool := false        -- a required value pipeline raises in `_prepare_population` (even for an empty event)
+  mapper  : Bool := false        -- a stratification mapper raises (only reached when somebody is in the event)
+deriving Repr, DecidableEq
+
+/-- is the filtered population of the observation's group non-empty (`not filtered_pop.empty`)? -/
+def popNonempty (rows : List RawRow) (mapped : List (List (String × Option String))) (o : Obs) (i : ObsInput) : Bool :=
+  match o.kind with
+  | .adding => !((mkRows o.strats rows mapped i.passes i.vals).filter Row.eligible).isEmpty
+  | .concat => !((mkCRows rows i.passes i.payloads).filter CRow.eligible).isEmpty
+
+/-- does a user callable raise when `gather_results` reaches observation `o`? -/
+def raisesAt (rows : List RawRow) (mapped : List (List (String × Option String))) (inputs : List ObsInput) (o : Obs) : Bool :=
+  match inputs.find? (fun i => i.name = o.name) with
+  | none => false
+  | some i =>
+    match i.fault with
+    | .none => false
+    | .filter => true
+    | .toObserve => popNonempty rows mapped o i
+    | .gather => popNonempty rows mapped o i && i.toObserve
+
+/-- the observations of the phase that are gathered before the first callable raises (all of them if none does) -/
+def reachedObs (c : Ctx) (phase : String) (rows : List RawRow) (mapped : List (List (String × Option String)))
+    (inputs : List ObsInput) : List Obs :=
+  (traversal (c.obs.filter (fun o => o.phase = phase))).takeWhile (fun o => !raisesAt rows mapped inputs o)
+
+/-- `ResultsManager.gather_results(lifecycle_phase, event)` with the caller catching what it raises: the context
+afterwards and the exception, if any.  A failure in `_prepare_population` or in the stratification loop records
+nothing; a failure at an observation keeps what the observations before it (in `traversal` order) recorded. -/
+def gatherCaught (c : Ctx) (phase : String) (time : Int) (rows : List RawRow) (inputs : List ObsInput)
+    (ef : EventFault) : Ctx × Option Err :=
+  if ef.prepare then (c, some .raised)
+  else if (rows.filter (·.inEvent)).isEmpty then (c, none)
+  else if ef.mapper then (c, some .raised)
+  else match stratifyAll c.strats rows with
+    | .error e => (c, some e)
+    | .ok mapped =>
+      let all := traversal (c.obs.filter (fun o => o.phase = phase))
+      let done := reachedObs c phase rows mapped inputs
+      (done.foldl (stepObs time rows mapped inputs) c, if done.length < all.length then some .raised else none)
+
+/-- a history in which every exception is caught and the run goes on (retried steps are further events) -/
+def runCaught (c : Ctx) (events : List (String × Int × List RawRow × List ObsInput × EventFault)) : Ctx :=
+  events.foldl (fun c e => (gatherCaught c e.1 e.2.1 e.2.2.1 e.2.2.2.1 e.2.2.2.2).1) c
 
 end Viv.Results
